@@ -341,15 +341,17 @@ def main():
         wf = 'false' if 'wfmap' in c02_false.get(f, ()) else 'true'
         un = 'false' if 'unambiguous' in c02_false.get(f, ()) else 'true'
         chk = ['/- generated by tools/xlate.py -- do not edit -/', 'import Gen.Tables', 'import Gen.Maps.' + mn,
-               'import Pyx12Verif.Spec.WalkerGen',
+               'import Pyx12Verif.Spec.WalkerGen', 'import Pyx12Verif.Proofs.MapRules',
                'open Pyx12Verif.MapSkel Pyx12Verif.Walker Pyx12Verif.WalkerGen', 'set_option maxRecDepth 1000000', 'namespace Gen', '',
                '/-- hypotheses of `walk_accepts_generated` for %s -/' % f,
                'theorem %s_wfmap : WFMap %s.children = %s := by decide +kernel' % (mn, mn, wf),
                'theorem %s_unambiguous : Unambiguous ⟨ENT, HL, CTX⟩ %s.children = %s := by decide +kernel' % (mn, mn, un),
+               '/-- same-id siblings key on the same value position (hypothesis of sibling_sound) -/',
+               'theorem %s_slots : slotsOKList ENT HL %s.children = true := by decide +kernel' % (mn, mn),
                '', 'end Gen', '']
         write_if_changed(os.path.join(GEN, 'Walk', mn + '.lean'), '\n'.join(chk))
         imports.append('import Gen.Walk.' + mn)
-        walk_thms += ['Gen.%s_wfmap' % mn, 'Gen.%s_unambiguous' % mn]
+        walk_thms += ['Gen.%s_wfmap' % mn, 'Gen.%s_unambiguous' % mn, 'Gen.%s_slots' % mn]
     side['walk_theorems'] = walk_thms
     side['walk_expected_false'] = {k: sorted(v) for k, v in c02_false.items()}
     write_if_changed(os.path.join(GEN, 'AuditC02.lean'), 'import Gen\n' + '\n'.join('#print axioms ' + t for t in walk_thms) + '\n')
